@@ -10,6 +10,7 @@ import (
 	"github.com/mimecast/dtail/internal/server/handlers"
 	"github.com/mimecast/dtail/internal/source"
 	userserver "github.com/mimecast/dtail/internal/user/server"
+	"github.com/mimecast/dtail/verif/explore"
 	"github.com/mimecast/dtail/verif/vos"
 	"github.com/mimecast/dtail/verif/vrt"
 )
@@ -125,6 +126,51 @@ func c10Big() {
 		fmt.Fprintf(&sb, "big line %d\n", i)
 	}
 	WriteScratch("c10/big.log", sb.String())
+}
+
+// c10CloseHandshake: several commands that finish at once leave several goroutines waiting for the client's
+// acknowledgement of the close hand-shake; one acknowledgement wakes them all while the transport shuts the handler
+// down as well - explored under ALL schedules within two deviations (a crash condition that is schedule-, not
+// input-determined).
+func c10CloseHandshake(c *Ctx, probe string) {
+	for _, cmds := range [][]string{{"cat", "cat"}, {"cat", "grep", "tail"}, {"cat " + probe + " regex:noop ", "cat"}, {"map select count($line)", "cat"}} {
+		cmds := cmds
+		sc := &explore.Scenario{Name: "c10-close-handshake", Params: fmt.Sprintf("%q", cmds), Agg: "c10-close-handshake", MaxSteps: 300000, Horizon: 10 * time.Minute}
+		sc.Run = func(cfg vrt.Config) (string, string, vrt.Result) {
+			res := vrt.Run(cfg, func() {
+				args := DefaultArgs()
+				args.Logger = "none"
+				args.LogLevel = "error"
+				StartEnv(source.Server, &args, nil)
+				cat := vrt.Make[struct{}]("catLimiter", 2)
+				tail := vrt.Make[struct{}]("tailLimiter", 2)
+				att := NewServerSession("client", "verifuser", cat, tail)
+				vrt.Go("pump", func() { att.Pump(32 * 1024) })
+				for _, cmd := range cmds {
+					att.H.Write(WireCommand(cmd))
+				}
+				vrt.Sleep("session", 12*time.Second)
+				att.H.Shutdown()
+			})
+			if res.Fail != nil {
+				return "fail:" + res.Fail.Kind, res.Fail.Error(), res
+			}
+			return "ok", "", res
+		}
+		sc.Filter = func(pt *vrt.Point, alt int) bool {
+			if pt.Alts[alt].Kind != vrt.AltRun {
+				return true
+			}
+			switch pt.Infos[alt].Kind {
+			case "wgadd", "wgwait":
+				return false
+			}
+			return true
+		}
+		c.Explore(sc, 2, func(msg string, v *explore.Violation) string {
+			return c10Sig(c10Case{Kind: "command", Payload: strings.Join(cmds, ";")}, msg)
+		})
+	}
 }
 
 func c10Sig(cs c10Case, msg string) string {
@@ -264,7 +310,7 @@ func init() {
 		Level: "exploration",
 		Rule: "client inputs enumerated exhaustively from token alphabets: 9 command words x 12 option suffixes (incl. huge and negative context values) x all sequences of <=2 (quick) / <=3 (thorough) of 16 argument tokens (incl. globs in unclean path form); " +
 			"'map' + all sequences of <=3 / <=4 of 28 query tokens; map followed by a read command; every ordered pair and triple over 6 well-formed commands (cat of a 1500-line file, cat, tail, grep, two map queries) on one session, back to back and 2 ms apart with 1 ms per read(2) (so that later commands arrive while earlier ones are at work); all <=4-token sequences of 8 protocol-envelope tokens; 3 commands split across two Write " +
-			"calls at every byte; 8 inputs to a health session.  Each is fed to a real ServerHandler/HealthHandler under the controlled scheduler (panic in ANY goroutine is caught), " +
+			"calls at every byte; 8 inputs to a health session; plus, under all schedules within two deviations, 4 sessions whose commands finish together so that several goroutines complete the close hand-shake at once.  Each is fed to a real ServerHandler/HealthHandler under the controlled scheduler (panic in ANY goroutine is caught), " +
 			"then a second user's session on the same limiters must still deliver its file.  non-trivial = distinct input strings",
 		Assumptions: []string{
 			"canonical schedule per input (the crash conditions are input-determined); 12 virtual seconds per input; executions that exceed the step cap (busy loops such as 'interval 0') are counted as truncated, not as crashes",
@@ -272,6 +318,7 @@ func init() {
 		Run: func(c *Ctx) {
 			probe := WriteScratch("c10/probe.log", "probe line 1\nprobe line 2\n")
 			c10Big()
+			c10CloseHandshake(c, probe)
 			trunc := 0
 			c10Cases(c.Thorough(), func(cs c10Case) {
 				if !c.Mine() || c.Expired() {
